@@ -30,7 +30,7 @@ func config(i int) printer.Config {
 	}
 	if bit(1) {
 		// bits 8 and up select another width
-		c.Width = []int{2, 1, 4, 8, 16, 33}[(i>>8)%6]
+		c.Width = []int{2, 1, 4, 8, 16, 33, -1}[(i>>8)%7]
 	}
 	if bit(2) {
 		c.Redir = printer.Before
@@ -331,7 +331,7 @@ func TestC05(t *testing.T) {
 		for cfg := 0; cfg < 256; cfg++ {
 			run(t, p, src, cfg, false)
 		}
-		for wsel := 1; wsel < 6; wsel++ {
+		for wsel := 1; wsel < 7; wsel++ {
 			// other indentation widths, on a space-indenting configuration
 			run(t, p, src, (i*8+wsel*37)%256|3|wsel<<8, false)
 		}
@@ -343,7 +343,7 @@ func TestC05(t *testing.T) {
 	if sh == 0 {
 		for di, src := range deepSources() {
 			for cfg := 0; cfg < 256; cfg += 5 {
-				run(t, &gen.Program{Feat: map[string]int{"kind:group": 19}}, src, (cfg+di)%256|(cfg%6)<<8, false)
+				run(t, &gen.Program{Feat: map[string]int{"kind:group": 19}}, src, (cfg+di)%256|(cfg%7)<<8, false)
 			}
 			st.Class("deeply_nested_program")
 		}
@@ -367,7 +367,7 @@ func TestC05(t *testing.T) {
 		}
 		src := gen.Render(p.Stream, lay).Src
 		base := rapid.IntRange(0, 255).Draw(rt, "config")
-		wsel := rapid.SampledFrom([]int{0, 0, 0, 1, 2, 3, 4, 5}).Draw(rt, "width")
+		wsel := rapid.SampledFrom([]int{0, 0, 0, 1, 2, 3, 4, 5, 6}).Draw(rt, "width")
 		for k := 0; k < 16; k++ {
 			run(rt, p, src, (base+k*37)%256|wsel<<8, true)
 		}
@@ -416,7 +416,7 @@ func TestC18(t *testing.T) {
 			return
 		}
 		for cfg := 0; cfg < 256; cfg += 3 {
-			run(t, p, src, (cfg+i)%256|(cfg%6)<<8, false)
+			run(t, p, src, (cfg+i)%256|(cfg%7)<<8, false)
 		}
 		if i%53 == 0 {
 			st.Sample(map[string]any{"src": src, "configs": "every third of 256"})
@@ -426,7 +426,7 @@ func TestC18(t *testing.T) {
 	if sh == 0 {
 		for di, src := range deepSources() {
 			for cfg := 0; cfg < 256; cfg += 17 {
-				run(t, &gen.Program{Feat: map[string]int{"kind:group": 19}}, src, (cfg+di)%256|(cfg%6)<<8, false)
+				run(t, &gen.Program{Feat: map[string]int{"kind:group": 19}}, src, (cfg+di)%256|(cfg%7)<<8, false)
 			}
 			st.Class("deeply_nested_program")
 		}
@@ -454,7 +454,7 @@ func TestC18(t *testing.T) {
 			st.Class("output_larger_than_write_buffer")
 		}
 		base := rapid.IntRange(0, 255).Draw(rt, "config")
-		wsel := rapid.SampledFrom([]int{0, 0, 0, 1, 2, 3, 4, 5}).Draw(rt, "width")
+		wsel := rapid.SampledFrom([]int{0, 0, 0, 1, 2, 3, 4, 5, 6}).Draw(rt, "width")
 		for k := 0; k < 8; k++ {
 			run(rt, p, src, (base+k*37)%256|wsel<<8, true)
 		}
